@@ -221,8 +221,9 @@ func runC14(w *fw.Worker) {
 			describeTags = append(describeTags, fmt.Sprintf("%s: %s=%q primary dials=%q", lr, a.tagKey, a.verbatim, lr.Leaf().Tags["dials"]))
 		}
 		desc["aliases"] = describeTags
-		if r.Bool() {
-			// as in ez, another alias-capable source over the same struct builds its view of it first
+		if r.Bool() && gen.FlattenedNamesDistinct(leaves) {
+			// as in ez, another alias-capable source over the same struct builds its view of it first (env and flag
+			// sources flatten the type, which presupposes distinct flattened names)
 			other := "env"
 			if fam == "env" {
 				other = []string{"flag", "pflag"}[r.Intn(2)]
